@@ -299,6 +299,70 @@ def r16_4(ctx):
              "a declaration that follows the defineComponent call is reported as unresolvable")
     idx = access_index(ctx)
     methods = c10._method_bodies(ctx)
+    from ..cfg import calls, callee_name, place_of
+    from .state import _ref_root_is_owned
+    from .influence import flow_of
+    for hb, mb in methods:
+        if not c10._is_root_method(hb):
+            continue
+        r.saw(mb["path"])
+        g = C.cfg_of(ctx, mb)
+        fl = flow_of(ctx, mb)
+        trav = c10._traversal_blocks(mb, ctx.facts)
+        pre = []
+        for i, t in calls(mb):
+            tys = t.get("arg_tys", [])
+            if callee_name(t).endswith("::visit_with") and len(tys) == 2 and tys[1].startswith("&mut ") and "::" not in tys[1][5:].split("<")[0]:
+                pre.append((i, t))
+        if not trav:
+            continue
+        ok_order = len(pre) == 1 and all(g.dominates(pre[0][0], tb) and tb in g.reach_after(pre[0][0]) for tb in trav)
+        r.ob("%s runs a read-only pre-pass over the whole module before it traverses" % hb["name"], ok_order, C.mloc(mb, pre[0][1]) if pre else C.mloc(mb, mb),
+             "visit_with(&mut %s) in bb%d dominates the traversal in bb%s" % (pre[0][1]["arg_tys"][1][5:], pre[0][0], trav) if ok_order else
+             "%d pre-pass call(s) dominating the traversal: the registries are not complete when the first defineComponent call is reached" % len(pre))
+        if not ok_order:
+            continue
+        # the collector local
+        cl = None
+        p = place_of(pre[0][1]["args"][1])
+        seen = set()
+        while p is not None and p["l"] not in seen:
+            seen.add(p["l"])
+            d = fl.defs.get(p["l"], [])
+            if len(d) != 1 or d[0][0] != "stmt":
+                break
+            rv = d[0][2]["rv"]
+            if rv.get("rk") == "use":
+                p = place_of(rv["op"])
+            elif rv.get("rk") == "ref":
+                q = rv["place"]
+                if (q.get("p") or []) in ([], None):
+                    cl = q["l"]
+                    break
+                p = {"l": q["l"]} if q.get("p") == ["*"] else None
+            else:
+                break
+        for name in ("interfaces", "type_aliases", "define_component"):
+            moved = []
+            for blk in mb["blocks"]:
+                if blk.get("cleanup"):
+                    continue
+                for st in blk["stmts"]:
+                    if st["k"] == "assign" and st["lhs"]["l"] == 1 and (st["lhs"].get("p") or [])[-1:] == ["." + name] and st["rv"].get("rk") == "use":
+                        src = place_of(st["rv"]["op"])
+                        hops = 0
+                        while src is not None and not src.get("p") and hops < 6:
+                            dd = fl.defs.get(src["l"], [])
+                            if len(dd) != 1 or dd[0][0] != "stmt" or dd[0][2]["rv"].get("rk") != "use":
+                                break
+                            src = place_of(dd[0][2]["rv"]["op"])
+                            hops += 1
+                        if src is not None and src["l"] == cl and (src.get("p") or [])[-1:] == ["." + name]:
+                            moved.append(blk["i"])
+            okm = cl is not None and any(g.dominates(pre[0][0], b) and all(g.dominates(b, tb) for tb in trav) for b in moved)
+            r.ob("%s: the pre-pass's `%s` becomes the visitor's before the traversal" % (hb["name"], name), okm, C.mloc(mb, pre[0][1]),
+                 "self.%s = collector.%s in bb%s, between the pre-pass and the traversal" % (name, name, moved) if okm else
+                 "no move of the collector's `%s` into self.%s between the pre-pass and the traversal" % (name, name))
     for name in ("interfaces", "type_aliases", "define_component"):
         acc = [a for a in idx.get(name, []) if not root_path(a["body"]).endswith("::new")]
         writers = sorted({root_path(a["body"]) for a in acc if a["kind"] == "store" or (a["kind"] == "call" and a["mut"] and re.search(r"::(insert|get_mut|entry|extend_from_slice)$", a.get("callee", "")))})
@@ -346,9 +410,11 @@ def r16_6(ctx):
     from .mirflow import self_field_of
     from .state import first_field
     from ..cfg import calls, callee_name
-    for hb, mb in c10._method_bodies(ctx):
+    hooks = [(hb, C.mir_of(ctx, hb)) for hb in ctx.facts.hir if hb["crate"] == VISITOR_CRATE and not hb.get("mac")
+             and re.search(r"(^|::)Visit(Mut)?$", hb.get("impl_trait") or "")]
+    for hb, mb in hooks:
         node_ty = hb["inputs"][1] if len(hb["inputs"]) > 1 else ""
-        if not (node_ty.endswith("TsInterfaceDecl") or node_ty.endswith("TsTypeAliasDecl")):
+        if mb is None or not (node_ty.endswith("TsInterfaceDecl") or node_ty.endswith("TsTypeAliasDecl")):
             continue
         r.saw(mb["path"])
         g = C.cfg_of(ctx, mb)
@@ -356,7 +422,7 @@ def r16_6(ctx):
         starts = []
         for blk in mb["blocks"]:
             ts = _true_succ(mb, fl, blk)
-            if ts and ts[0] == "field" and any(f.strip(".") == "options.resolve_type" for f in ts[1]) and ts[3] is not None:
+            if ts and ts[0] == "field" and any(f.strip(".") in ("options.resolve_type", "resolve_type") for f in ts[1]) and ts[3] is not None:
                 starts.append(ts[3])
         reg = set()
         for i, t in calls(mb):
